@@ -839,6 +839,9 @@ func (r *envelopingReader) Read(data []byte) (n int, err error) {
 	if r.err != nil {
 		return 0, r.err
 	}
+	if len(data) == 0 {
+		return 0, nil
+	}
 	if r.envRemain > 0 {
 		// finish handing out the envelope before any of the message that follows it
 		n = copy(data, r.env[envelopeLen-r.envRemain:])
@@ -850,6 +853,10 @@ func (r *envelopingReader) Read(data []byte) (n int, err error) {
 		isEOF := errors.Is(err, io.EOF)
 		if bytesRead > 0 && (err == nil || isEOF) {
 			return bytesRead, nil
+		}
+		if bytesRead == 0 && err == nil {
+			// nothing happened; in particular this is not the end of the message
+			return 0, nil
 		}
 		if err != nil && !isEOF {
 			r.err = err
@@ -1009,6 +1016,10 @@ func (r *transformingReader) Read(data []byte) (n int, err error) {
 	verifPoint("tr:read")
 	if r.err != nil {
 		return 0, r.err
+	}
+	if len(data) == 0 {
+		// must not be mistaken for "the current message is drained"
+		return 0, nil
 	}
 
 	for {
